@@ -370,8 +370,10 @@ func genMember(r *vh.Rand, idx int) *MemberCase {
 		sort.Ints(up)
 		add(MOp{Kind: "big", Node: vh.Pick(r, up)})
 		add(MOp{Kind: "sleep", Dt: int64(r.Range(60, 240)) * int64(time.Second)})
-		add(MOp{Kind: "big", Node: vh.Pick(r, up)})
-		add(MOp{Kind: vh.Pick(r, []string{"big", "small"}), Node: vh.Pick(r, up)})
+		for _, s := range up { // after the old name had time to be declared dead: every running instance sends one
+			add(MOp{Kind: "big", Node: s})
+		}
+		add(MOp{Kind: "small", Node: vh.Pick(r, up)})
 	}
 	return c
 }
